@@ -91,8 +91,8 @@ fn shapes_case<P: G>(cfg: Cfg) -> Box<dyn Case> {
         if cfg.m == 1 {
             wit.seed = Some(seed_scalar(8));
         }
-        let built = build_cached::<P>(&cfg, &wit).unwrap();
-        let honest_proof = lib_prove(&built, &CTX_A, &mut HRng::chacha(14)).unwrap();
+        let built = build_cached::<P>(&cfg, &wit).honest();
+        let honest_proof = lib_prove(&built, &CTX_A, &mut HRng::chacha(14)).honest();
         let (hobs, honest) = measured_verify(std::slice::from_ref(&built.statement), std::slice::from_ref(&honest_proof), &[CTX_A], VerifyAction::RecoverAndVerify);
         if !hobs.is_ok() {
             // no honest baseline to bound the cost against: C01's finding, not this property's
@@ -140,8 +140,8 @@ fn points_and_promises_case<P: G>(cfg: Cfg) -> Box<dyn Case> {
         if cfg.m == 1 {
             wit.seed = Some(seed_scalar(8));
         }
-        let built = build_cached::<P>(&cfg, &wit).unwrap();
-        let proof = lib_prove(&built, &CTX_A, &mut HRng::chacha(15)).unwrap();
+        let built = build_cached::<P>(&cfg, &wit).honest();
+        let proof = lib_prove(&built, &CTX_A, &mut HRng::chacha(15)).honest();
         let (_, honest) = measured_verify(std::slice::from_ref(&built.statement), std::slice::from_ref(&proof), &[CTX_A], VerifyAction::RecoverAndVerify);
         if let Some(rp) = refbp::ref_decode(&P::to_bytes(&proof)) {
             let h = built.params.h_base().clone();
@@ -287,9 +287,9 @@ fn long_batch_case<P: G>(layout: &'static str) -> Box<dyn Case> {
             let cfg = if big { Cfg::new(n, 2, 2, d) } else { Cfg::new(n, 1, 1, d) };
             let mut wit = Wit::default_for(&cfg);
             wit.values[0] = (pos % 4) as u64;
-            let built = build_cached::<P>(&cfg, &wit).unwrap();
+            let built = build_cached::<P>(&cfg, &wit).honest();
             let ctx = contexts()[pos % 6];
-            proofs.push(lib_prove(&built, &ctx, &mut HRng::chacha(pos as u64)).unwrap());
+            proofs.push(lib_prove(&built, &ctx, &mut HRng::chacha(pos as u64)).honest());
             sts.push(built.statement.clone());
             ctxs.push(ctx);
         }
